@@ -178,7 +178,7 @@ def run(tier, seed):
                "hat-function argument: a filter that is exact for the triangular input centred on one sample is exact for every "
                "piecewise-linear input starting from rest (linearity + time invariance of lfilter and of the ODE)",
                "Q > 1/2 (underdamped), wn >= 0, dT > 0")
-    run.not_covered += ["rolloff resamplers (fft/lanczos/prefilter/linear) accuracy", "srs_frf / vrs / Miles closed forms: bounded float oracle only",
+    run.not_covered += ["rolloff resamplers (fft/lanczos/prefilter/linear) accuracy (their bookkeeping inside srs: bounded)", "srs_frf / vrs / Miles closed forms: bounded float oracle only",
                         "column-order / 1-D vs 2-D packaging independence (follows from lfilter acting column-wise: assumed)",
                         "record lengths other than 2 in the end-to-end window/IC check (bounded part)"]
     mod = alg.load_module(report.REPO, FILE)
@@ -223,6 +223,11 @@ def run(tier, seed):
     run.bounded.append(dict(name="float: srs.vrs (Zvrs, Miles estimate, response PSDs; uniform / logarithmic / two-step / irregular integration grids, Fn on and off the grid, 1-3 "
                                  "specifications, linear and log-log expansion) and srs.srs_frf (merged frequency vector, response FRFs, peaks, srs_frq=None, scale_by_Q_only) against "
                                  "brute-force evaluation of the documented closed forms", evaluations=evf, failures=0 if ff_ is None else 1, label="bounded (never counted as proved)"))
+    evr, fr_ = report.guarded(run, rolloff_bounded, seed, tier == "quick")
+    run.bounded.append(dict(name="float: srs with roll-off resampling inside (linear x2 / lanczos / fft / callable) == srs without roll-off on the record upsampled outside, for "
+                                 "primary / total / residual windows, response types, peak selectors (peaks, histories, time vectors); integer-typed records == their float copies "
+                                 "for every roll-off and ic rule", evaluations=evr, failures=0 if fr_ is None else 1, label="bounded (never counted as proved)"))
+    ff_ = ff_ or fr_
     failed = [v for v in vs if v.status == "failed"]
     if failed:
         v = failed[0]
@@ -237,6 +242,66 @@ def run(tier, seed):
     elif ff_ is not None:
         run.violation("bounded:" + ff_["what"][:60], ff_["what"], dict(concrete=ff_), concrete=True)
     return run.finish()
+
+
+def rolloff_bounded(seed, quick):
+    """srs with a resampling roll-off (record upsampled inside srs because sr/max(freq) < ppc) against srs WITHOUT roll-off on the same record upsampled outside (the path
+    the symbolic end-to-end check covers): peaks, histories and time vectors for every time window, response type and peak selector; 'linear' (factor 2, upsampled here
+    with np.interp), 'lanczos' and 'fft' (their resamplers applied to the float record), a callable; integer-typed records must give what their float copies give"""
+    sys.path.insert(0, report.REPO)
+    import warnings
+    from pyyeti import srs as S
+    rng = np.random.RandomState(seed + 911)
+    ev = 0
+
+    def lin2(sig, sr, ppc, frq):
+        n = sig.shape[0]
+        t_old = np.arange(n) / sr
+        t_new = np.arange(2 * n - 1) / (2 * sr)
+        return np.column_stack([np.interp(t_new, t_old, sig[:, j]) for j in range(sig.shape[1])]), 2 * sr
+
+    for it in range(6 if quick else 40):
+        n = int(rng.choice([24, 31, 40]))
+        H = 1 + it % 2
+        sr = 200.0
+        sig = np.cumsum(rng.randn(n, H), axis=0)
+        sig[0] = 0.0
+        Q = float(rng.choice([10, 25]))
+        ppc = 10
+        kind = ("linear", "lanczos", "fft", "callable")[it % 4]
+        freq = np.array([6.0, 17.0, 38.0]) if kind in ("linear", "callable") else np.array([5.0, 21.0, float(rng.choice([38.0, 55.0, 90.0]))])   # linear: factor exactly 2
+        roll = {"linear": "linear", "lanczos": "lanczos", "fft": "fft", "callable": lin2}[kind]
+        outside = {"linear": lin2, "callable": lin2, "lanczos": S.lanroll, "fft": S.fftroll}[kind]
+        with warnings.catch_warnings():
+            warnings.simplefilter("ignore")
+            sig2, sr2 = outside(sig.copy(), sr, ppc, freq.max())
+            for stype in (("absacce", "reldisp") if quick else ("absacce", "relacce", "reldisp", "relvelo", "pvelo", "pacce")):
+                for tm in ("primary", "total", "residual"):
+                    for pk in (("abs", "poss") if quick else ("abs", "pos", "neg", "poss", "negs", "rms")):
+                        a, ra = S.srs(sig, sr, freq, Q, ic="zero", stype=stype, peak=pk, ppc=ppc, rolloff=roll, time=tm, getresp=True, parallel="no")
+                        b, rb = S.srs(sig2, sr2, freq, Q, ic="zero", stype=stype, peak=pk, ppc=ppc, rolloff="none", time=tm, getresp=True, parallel="no")
+                        ev += 1
+                        prob = None
+                        if ra["hist"].shape != rb["hist"].shape or ra["t"].shape != rb["t"].shape:
+                            prob = "history / time vector have %s / %s samples, expected %s / %s" % (ra["hist"].shape, ra["t"].shape, rb["hist"].shape, rb["t"].shape)
+                        elif not np.allclose(ra["t"], rb["t"], rtol=1e-12, atol=1e-12):
+                            prob = "time vector differs (starts at %g, expected %g)" % (ra["t"][0], rb["t"][0])
+                        elif not (np.allclose(ra["hist"], rb["hist"], rtol=1e-9, atol=1e-9 * (1 + abs(rb["hist"]).max())) and np.allclose(a, b, rtol=1e-9, atol=1e-12)):
+                            prob = "peaks / histories differ by %.3g" % max(abs(np.asarray(a) - np.asarray(b)).max(), abs(ra["hist"] - rb["hist"]).max())
+                        if prob:
+                            return ev, dict(what="srs(rolloff=%s, time=%s, stype=%s, peak=%s) is not srs of the upsampled record: %s" % (kind, tm, stype, pk, prob),
+                                            sig=sig.tolist(), sr=sr, freq=freq.tolist(), Q=Q, ppc=ppc)
+            # integer-typed record == its float copy (every roll-off, ic rule)
+            sig_i = np.round(20 * sig).astype([np.int64, np.int32, np.int16][it % 3])
+            for ic in ("zero", "shift", "steady"):
+                for rl in ("lanczos", "fft", "linear", "none"):
+                    a, ra = S.srs(sig_i, sr, freq, Q, ic=ic, rolloff=rl, ppc=ppc, getresp=True, parallel="no")
+                    b, rb = S.srs(sig_i.astype(float), sr, freq, Q, ic=ic, rolloff=rl, ppc=ppc, getresp=True, parallel="no")
+                    ev += 1
+                    if ra["hist"].shape != rb["hist"].shape or not (np.allclose(a, b, rtol=1e-9, atol=1e-12) and np.allclose(ra["hist"], rb["hist"], rtol=1e-9, atol=1e-9 * (1 + abs(rb["hist"]).max()))):
+                        return ev, dict(what="srs(ic=%s, rolloff=%s) of an integer-typed record (%s) differs from srs of its float copy by %.3g" % (ic, rl, sig_i.dtype, abs(np.asarray(a) - np.asarray(b)).max()),
+                                        sig=sig_i.tolist(), sr=sr, freq=freq.tolist(), Q=Q, ppc=ppc)
+    return ev, None
 
 
 def freq_domain_bounded(seed, quick):
